@@ -20,17 +20,17 @@ type NodeInfo struct {
 
 // GetStatus 原子读取状态
 func (n *NodeInfo) GetStatus() StatusCode {
-	return n.Status
+	return StatusCode(atomic.LoadUint32((*uint32)(&n.Status)))
 }
 
 // IsStatusUp 原子读取判断是否为 UP
 func (n *NodeInfo) IsStatusUp() bool {
-	return n.Status == StatusUp
+	return n.GetStatus() == StatusUp
 }
 
 // IsStatusDown 原子读取判断是否为 Down
 func (n *NodeInfo) IsStatusDown() bool {
-	return n.Status == StatusDown
+	return n.GetStatus() == StatusDown
 }
 
 // SetStatusUp 原子设置为 UP，返回 true 表示状态发生变更
